@@ -160,7 +160,7 @@ Corollary dup_continues_checked h S p :
 Proof.
   intros HA H. destruct (dup_okb_sound S p H) as (t & Hp & H1 & H2 & H3).
   destruct (dup_continues h S p t HA Hp H1 H2 H3) as (tc & h' & S' & E1 & E2 & E3 & E4 & E5 & _).
-  by exists t, tc, h', S'.
+  exists t, tc, h', S'. exact (conj Hp (conj E1 (conj E2 (conj E3 (conj E4 E5))))).
 Qed.
 
 (** non-vacuity: after the history [ex6] without its final delete, the document (object 3, with an
@@ -179,5 +179,17 @@ Corollary ex6_dup :
 Proof.
   destruct (history3_checked ex6_live ex6_live_accepted) as (h & E & HA).
   destruct (dup_continues_checked h _ 3%positive HA ex6_live_dup_ok) as (t & tc & h' & S' & H1 & H2 & H3 & H4 & H5 & _).
-  by exists h, t, tc, h', S'.
+  exists h, t, tc, h', S'. exact (conj E (conj H1 (conj H2 (conj H3 (conj H4 H5))))).
+Qed.
+
+(** a duplicated item has no sibling links (C06_links, for the copy) *)
+Corollary dup_root_no_links h S p t :
+  Abs3 h S -> find_tree p (a_forest S) = Some t ->
+  vals_readable S t -> no_borrowed t -> height t <= Z.to_nat c_CJSON_CIRCULAR_LIMIT ->
+  exists tc h', cJSON_Duplicate nv (Some p) true h = Ret (Some (tid tc), h') /\ h_lnk h' !! tid tc = Some (None, None).
+Proof.
+  intros HA Hp H1 H2 H3. destruct (dup_continues h S p t HA Hp H1 H2 H3) as (tc & h' & S' & E & _ & HA' & HF & _).
+  exists tc, h'. split; [exact E|]. pose proof (proj1 (proj1 (proj1 HA'))) as W'. unfold a_forest in HF.
+  change (as_forest (a_st S')) with (a_forest S') in W'. unfold a_forest in W'. rewrite HF in W'.
+  apply (WF_lookup_lnk_root _ _ _ W'). rewrite roots_app. apply elem_of_app. right. by left.
 Qed.
